@@ -156,13 +156,259 @@ PROPS = {
              "conservation (result + word*2^(64N) equals the exact value). Non-trivial: at least two non-zero limbs overall.",
         assumptions=COMMON_ASSUME + ["length preconditions (`assume!`) are respected: violating them is UB in release builds and outside the property"],
     ),
+    "C08": dict(
+        bin="c08",
+        lanes=lanes(quick_scale=6.0, thorough_scale=80.0,
+                    miri=dict(light=0.01, scale=0.004, widths=[0, 7, 8, 57, 60, 64, 65, 124, 128, 250, 256]),
+                    asan=True, memcheck=True),
+        primary_lane="checked",
+        rule="Cases: encode (every byte form of a value vs its base-256 digits: as_le_slice, as_le_bytes(_trimmed), "
+             "to_le/be_bytes::<BYTES>, *_bytes_vec, *_trimmed_vec, copy_*_bytes_to into exact/longer/shorter buffers with a "
+             "canary fill, checked_copy_*, from_*_bytes and slice decoders on the encodings) and decode_be / decode_le "
+             "(try_from_*_slice, from_*_slice, from_*_bytes on arbitrary strings of every length 0..BYTES+8: all-0xff, zero, "
+             "single set byte, random, valid value with each excess high bit set, value +- leading byte). "
+             "Non-trivial: non-zero value / non-empty slice.",
+        assumptions=COMMON_ASSUME,
+    ),
+    "C09": dict(
+        bin="c09",
+        lanes=lanes(quick_scale=1.5, thorough_scale=20.0,
+                    miri=dict(light=0.002, scale=0.002, widths=[0, 1, 7, 64, 65, 128, 256]), memcheck=True),
+        primary_lane="checked",
+        rule="Cases: to_base (digit iterators for 15 fixed bases incl. 10^19, 2^63, 2^64-1 plus a random base, and the inverse "
+             "from_base_le/be), from_base (digit strings with zero or one fault: overflow by one unit / one digit, digit >= base, "
+             "base < 2; several faults only require Err), fmt (Display, Debug, Binary, Octal, LowerHex, UpperHex x 18 flag "
+             "combinations x widths 1,5,20,70,140 vs Formatter::pad_integral on BigUint digits and vs u128 formatting when the "
+             "value fits), parse (from_str_radix for every radix 0..=65 incl. every single-character string, '_' handling, one "
+             "invalid character, digit equal to the radix, overflow by one), from_str with 0x/0o/0b prefixes. "
+             "Non-trivial: value >= base, or a string of >= 2 characters.",
+        assumptions=COMMON_ASSUME + ["std's Formatter::pad_integral and u128 formatting are the reference for text layout",
+                                     "format specs outside the grid ({:x?}, precision) are not observed"],
+    ),
+    "C10": dict(
+        bin="c10",
+        lanes=lanes(quick_scale=2.0, thorough_scale=25.0,
+                    miri=dict(light=0.002, scale=0.002, widths=[1, 7, 64, 65, 128, 129, 256])),
+        primary_lane="checked",
+        hooks_expected=["INVMOD_LEHMER_STEP", "INVMOD_EUCLID_STEP", "DIV_NXM", "DIV_NX1", "DIV_NX2", "ADDMUL_FULL_ROW"],
+        rule="Cases: mod3 (reduce_mod, add_mod, mul_mod), pow_mod, inv_mod vs BigUint; moduli 0, 1, 2, 3, 2^k, 2^k+-1, 2^BITS-1, "
+             "short (1..LIMBS limbs), alphabet; operands >= m, a = b = m-1, sums/products overflowing BITS; exponents 0, 1, 2^k, "
+             "small, full width (<= 1024 bits); inv_mod also on pairs with a known quotient sequence (Fibonacci, huge quotients, "
+             "2^32+-1). All triples enumerated at BITS<=3. Non-trivial: m >= 2 and an operand >= 2.",
+        assumptions=COMMON_ASSUME,
+    ),
+    "C11": dict(
+        bin="c11",
+        lanes=lanes(quick_scale=25.0, thorough_scale=400.0,
+                    miri=dict(light=0.02, scale=0.01), miri_quick=False),
+        primary_lane="checked",
+        hooks_expected=["REDC_MUL_CARRY_TRACKED", "REDC_MUL_CARRY_IGNORED", "REDC_MUL_CARRY_SET", "REDC_SQ_WIDE", "REDC_SQ_NARROW",
+                        "REDC_SQ_OUTER_0", "REDC_SQ_OUTER_1", "REDC_SQ_OUTER_2", "REDC_SQ_CARRY_HI", "REDC_REDUCE_SUB_CARRY",
+                        "REDC_REDUCE_SUB_NOBORROW", "REDC_REDUCE_KEEP"],
+        rule="Cases: slice-level mul_redc / square_redc for every N in 1..=16 and Uint::mul_redc / square_redc at 24 widths; odd "
+             "moduli >= 3 in 14 top-limb classes (0 = short, 1, 2^62-2..2^62+1, 2^63-2..2^63+1, MAX-1, MAX, random, alphabet), "
+             "operands 0, 1, 2, m-1, m-2, m/2, alphabet mod m. Oracle: r < m and r*R = a*b (mod m) with R = 2^(64N); inv computed "
+             "by the harness's own Newton iteration. Non-trivial: a, b >= 2.",
+        assumptions=COMMON_ASSUME,
+    ),
+    "C12": dict(
+        bin="c12",
+        lanes=lanes(quick_scale=2.0, thorough_scale=25.0,
+                    miri=dict(light=0.002, scale=0.0004, widths=[1, 7, 64, 65, 128, 129, 256, 320]), miri_quick=False),
+        primary_lane="checked",
+        hooks_expected=["LEHMER_FROM_LE64", "LEHMER_FROM_LE128", "LEHMER_FROM_GT128", "PREFIX_RET_A1_SMALL", "PREFIX_RET_A2_SMALL_OK",
+                        "PREFIX_RET_A2_SMALL_ID", "PREFIX_RET_EVEN_I2", "PREFIX_RET_EVEN_I1", "PREFIX_RET_EVEN_I0",
+                        "PREFIX_RET_ODD_I2", "PREFIX_RET_ODD_I1", "PREFIX_RET_ODD_I0", "GCD_LEHMER_STEP", "GCD_EUCLID_STEP",
+                        "GCDX_LEHMER_STEP", "GCDX_EUCLID_STEP"],
+        rule="Cases: gcd (gcd, lcm, gcd_extended with the Bezout identity modulo 2^BITS in both argument orders), matrix "
+             "(LehmerMatrix::from for a >= b: identity or (c, d) with c >= d >= 0, d < b, gcd preserved; apply reproduces the exact "
+             "image), from_u64, prefix64 / prefix128 (from_u64_prefix / from_u128_prefix applied to random extensions of 0..192 "
+             "bits with zero / all-one / random tails). Pairs are built bottom-up from quotient sequences (all ones, one huge, "
+             "alternating, around 2^32, alphabet) scaled by 2^k and large odd factors, plus a = b, a = b+-1, boundary and hostile "
+             "pairs; all pairs enumerated at BITS<=4. Non-trivial: min(a, b) >= 2.",
+        assumptions=COMMON_ASSUME + ["LehmerMatrix::compose is not part of the property and is not checked"],
+    ),
+    "C13": dict(
+        bin="c13",
+        lanes=lanes(quick_scale=1.5, thorough_scale=20.0),
+        primary_lane="checked",
+        hooks_expected=["LOG_DECREMENT", "LOG_OVERFLOW_DECREMENT", "ROOT_FIXPOINT", "ROOT_STOP_INCREASE", "ROOT_CAPPED_INCREASE",
+                        "ROOT_DECREASE"],
+        rule="Cases: pow (pow, wrapping/overflowing/checked/saturating_pow vs modpow and an exact overflow decision), log (log and "
+             "checked_log for every base class incl. 0, 1, MAX), log2_10 (log2, log10 and checked forms incl. widths 1..3), root "
+             "(every degree 0..=BITS+2 at widths <= 257; r^d <= v < (r+1)^d). Values: exponents around BITS/log2(b), perfect powers "
+             "b^e and k^d with neighbours +-1, powers of ten, 53/54-bit heads with all-zero / all-one tails (f64 rounding "
+             "boundaries). Everything enumerated at BITS<=4. Termination is decided by the per-call loop cap (10^6 iterations) of "
+             "the hooks, never by wall-clock. Non-trivial: base/value >= 2 and exponent/degree >= 2.",
+        assumptions=COMMON_ASSUME + ["never run under Miri: Miri perturbs exp2/log2 results, which would create executions the real program cannot have"],
+    ),
+    "C16": dict(
+        bin="c16",
+        lanes=lanes(quick_scale=0.6, thorough_scale=8.0,
+                    miri=dict(light=0.0015, scale=0.0001), asan=True),
+        primary_lane="checked",
+        rule="One case = (integration, width, value); integrations: serde_json, bincode, rlp, alloy_rlp, fastrlp 0.3/0.4, SCALE "
+             "fixed and compact, ssz, borsh, der, postgres (17 column types), num_bigint, primitive_types, bytemuck, ark-ff "
+             "0.3/0.4. Checks: decode(encode(v)) = v; advertised length = produced length where exact, >= where an upper bound, "
+             "and computing it never panics; bytes = an independent reference encoder written from the format definition on the "
+             "raw limbs; bytes = the codec crate's own encoding of the equal u64/u128 where it implements the format. Values: all "
+             "2^BITS values at BITS<=16, every mode boundary of RLP / SCALE compact / postgres integer columns, 2^(8k)+-1, "
+             "55/56-byte payloads, 10000^k, bn254 moduli +-2, hostile random. Non-trivial: value >= 2.",
+        assumptions=COMMON_ASSUME + ["the hand-written reference encoders (RLP, SCALE, SSZ, borsh, DER, JSON, bincode) are trusted",
+                                     "third-party crates are not judged, only ruint's glue"],
+    ),
+    "C17": dict(
+        bin="c17",
+        lanes=lanes(quick_scale=0.15, thorough_scale=3.0, quick_shards=8,
+                    miri=dict(light=0.002, scale=0.0005, widths=[0, 7, 60, 63, 64, 65, 250, 256]), asan=True),
+        primary_lane="checked",
+        rule="One case = (decoder entry point, width, input bytes or text[, injected fault]); 57 entry points: byte-slice and text "
+             "parsers, serde (JSON str/slice/value, u64/u128 visitors, bincode incl. a reader), rlp, alloy-rlp, fastrlp 0.3/0.4, "
+             "SCALE fixed/compact (incl. a faulty Input), ssz, borsh (incl. readers delivering one byte at a time, Interrupted, "
+             "EOF or an error at offset k), DER (from_der and the AnyRef/Any/IntRef/Int/UintRef/Uint conversions), 17 postgres "
+             "column types, num-bigint. Oracle: no panic; Ok(v) => v canonical and equal to an independent reference decoder; "
+             "truncated / wrong tag / length contradiction / value >= 2^BITS => Err; alloy-rlp, fastrlp and DER: Ok => re-encoding "
+             "reproduces the consumed bytes. Inputs: valid encodings with one field mutated, every 0-, 1- and 2-byte input, "
+             "random strings up to BYTES+16. Non-trivial: input of >= 2 bytes / characters.",
+        assumptions=COMMON_ASSUME + ["the hand-written reference decoders are trusted and restricted to the clear-cut classes (truncation, tag/type mismatch, length contradiction, over-range)",
+                                     "non-minimal encodings are only required to be rejected by alloy-rlp, fastrlp and DER"],
+    ),
+    "C18": dict(
+        bin="c18",
+        lanes=dict(
+            quick=[dict(lane="checked", shards=8, scale=1.0), dict(lane="release", shards=8, scale=1.0)],
+            thorough=[dict(lane="checked", shards=16, scale=15.0), dict(lane="release", shards=16, scale=15.0)]
+                     + [dict(lane="release", shards=16, scale=1.0, extra=dict(f32sweep=w), tag=f"f32sweep{w}") for w in (7, 25, 64, 128)]),
+        primary_lane="checked",
+        rule="Cases: to_float (f64::from / f32::from by value and reference: result is one of the two floats around the exact "
+             "value, exact when representable, +inf only from 2^1024-2^970 resp. 2^128-2^103), to_float_mono (sorted and adjacent "
+             "pairs), from_f64 / from_f32 (try_from, from, saturating_from, wrapping_from vs exact floor(f+1/2) on the IEEE fields; "
+             "NaN, negative, too large). Grid: both signs x all 2048 f64 exponents x 11 mantissa patterns, all 256 f32 exponents x 7 "
+             "patterns, integers in [2^52, 2^53), k+1/2, 2^BITS and neighbours, subnormals, +-0, +-inf, NaNs; Uint values with "
+             "24/25/53/54/64/65-bit heads and zero / one / half-ulp tails. The thorough tier additionally sweeps all 2^32 f32 bit "
+             "patterns through try_from at BITS = 7, 25, 64, 128. Non-trivial: finite non-zero float / value >= 2^53.",
+        assumptions=COMMON_ASSUME + ["the host's IEEE-754 arithmetic and f32<->f64 conversions are exact as specified",
+                                     "native lanes only: Miri deliberately perturbs exp2/log2"],
+    ),
+    "C20": dict(
+        bin="c20",
+        lanes=lanes(quick_scale=0.25, thorough_scale=4.0,
+                    miri=dict(light=0.0005, scale=0.0003, widths=[0, 1, 7, 64, 65, 128, 256]), miri_quick=False),
+        primary_lane="checked",
+        rule="Differential cases: for every width and operand tuple each facade (six operator shapes of + - * / % & | ^, unary - !, "
+             "<< >> for 10 integer amount types and Uint amounts, every forwarded Bits method and operator, every num-traits impl, "
+             "all num-integer Integer methods, subtle ct_eq/ct_ne/ct_gt/ct_lt, conditional_select/assign/swap/negate and bit_ct, "
+             "Sum/Product, Zeroize; 346 entry points) must return what the inherent Uint method of the same meaning returns, both "
+             "evaluated under catch_unwind (both panic = agree, one panics = violation; a facade may panic only where its signature "
+             "cannot express the inherent None). Operands: boundary pairs, zero and near-equal divisors, over-wide shift amounts, "
+             "hostile random. Non-trivial: operands not all zero.",
+        assumptions=COMMON_ASSUME + ["the inherent methods are the reference here; they are themselves checked against BigUint by C01-C13",
+                                     "constant-time behaviour of the subtle impls is not observable by this technique"],
+    ),
 }
+
+# ----------------------------------------------------------------------------- custom checks (compile probes)
+
+def _c04_custom(pid, tier, seed, ctx):
+    import time
+    import probes
+    t0 = time.time()
+    P = PROPS[pid]
+    results, inconclusive = ctx["run_lanes"](pid, P, tier, seed, ctx["WORK"])
+    ev, distinct, samples, viol, inc, detail = probes.run_illformed(tier, ctx)
+    inconclusive += inc
+    extra = dict(detail)
+    extra["evaluations_extra"] = ev
+    extra["distinct_nontrivial_extra"] = distinct
+    return ctx["finish"](pid, P, tier, seed, results, inconclusive, t0, extra_cov=extra, extra_violations=viol, extra_samples=samples)
+
+
+def _c19_custom(pid, tier, seed, ctx):
+    import time
+    import probes
+    t0 = time.time()
+    P = PROPS[pid]
+    ev, distinct, samples, viol, inc, detail = probes.run_macro(tier, seed, ctx)
+    extra = dict(detail)
+    extra["evaluations_extra"] = ev
+    extra["distinct_nontrivial_extra"] = distinct
+    return ctx["finish"](pid, P, tier, seed, [], list(inc), t0, extra_cov=extra, extra_violations=viol, extra_samples=samples)
+
+
+def _probe_replay(pid, path, ctx):
+    import json
+    import probes
+    rec = json.load(open(path))
+    if rec.get("replay_kind") == "illformed":
+        bad = probes.replay_illformed(rec, ctx)
+    elif rec.get("replay_kind") == "macro":
+        bad = probes.replay_macro(rec, ctx)
+    else:
+        return None
+    if bad:
+        print(f"VIOLATION property={pid} replay={path}")
+        return 1
+    print("replay: held")
+    return 0
+
+
+PROPS["C04"] = dict(
+    bin="c04",
+    custom=_c04_custom,
+    probe_replay=_probe_replay,
+    lanes=lanes(quick_scale=4.0, thorough_scale=60.0,
+                miri=dict(light=1.0, scale=0.002, widths=[0, 1, 7, 63, 64, 65, 128, 129, 256])),
+    primary_lane="checked",
+    rule="(a) closure walk: every shard runs one history; each step applies an operation group from the safe public API "
+         "(arithmetic, division, gcd, modular, pow, root, bit ops, shifts/rotations, constants, conversions from every primitive, "
+         "floats and other widths, byte / text / digit decoders, *_from_limbs_slice, rand 0.8 / 0.9, arbitrary, proptest "
+         "(incl. shrinking), quickcheck) to operands drawn from per-width pools of previously produced values, checks every "
+         "produced value for canonical form and feeds it back (values migrate between 20 widths through the cross-width "
+         "conversions); after every 8 steps sampled pairs (equal, random, one-bit neighbours) are compared: == != hash cmp "
+         "partial_cmp < <= > >= min max vs BigUint order. (b) rejecting constructors on out-of-range limbs. (c) compile probes: "
+         "for 9 ill-formed (BITS, LIMBS) pairs one generated program per constant / constructor; outcome must be a compile "
+         "error, a panic, or None/Err - printing a value is a violation. Non-trivial: every walk step and every probe program "
+         "(distinct by operation, width and operands / by program).",
+    assumptions=COMMON_ASSUME + ["values produced through unsafe API (as_limbs_mut, as_le_slice_mut) are outside the property",
+                                 "the ill-formed grid is the finite list of 9 (BITS, LIMBS) pairs x the listed constructors"],
+)
+
+PROPS["C19"] = dict(
+    bin=None,
+    custom=_c19_custom,
+    probe_replay=_probe_replay,
+    lanes=dict(quick=[], thorough=[]),
+    primary_lane="probe",
+    rule="Generated programs using ruint::uint! from the working tree. Positive: hundreds of literals (bases 2/8/10/16, up to "
+         "~1200 digits, underscores, leading zeros, U and B suffix widths 0..=4096; values 0, 1, 2^bits-1, 2^k-1, random) nested in "
+         "14 expression contexts and as const items; each prints its width and limbs, compared with Python's int(digits, base) and "
+         "with the program's own run-time from_str_radix of the same digits. Pass-through tokens (suffixed primitives, floats, "
+         "byte/str literals, hex literals ending in B<digits>) are asserted unchanged. Negative: one bad literal per line (value "
+         "= 2^bits, 2^bits+k, one limb too many, hundreds of excess bits; a digit invalid for the base incl. the digit equal to "
+         "the base) interleaved with valid lines; rustc's JSON diagnostics must contain an error whose primary span is on every "
+         "bad line and on no good line. Half of the programs are seed independent. Non-trivial: literal of >= 2 digits.",
+    assumptions=["Python integers are the reference for literal values", "rustc's lexer rejects 0b2 / 0o8 before the macro runs; those forms are not generated",
+                 "a run shows the property held on the programs generated, not for all programs"],
+)
+
 
 TRUST = ("Trusted base: rustc/cargo, num-bigint as arithmetic reference, the hand-written oracle in the workload binary, "
          "the coverage hooks being add-only. Finite width list and sampled operands; sanitizer lanes see only reached code.")
 
 
 LEVEL = {
+    "C08": "every byte form of a value vs its base-256 digits, canary-filled copy buffers, and both slice decoders on strings of every length 0..BYTES+8 incl. each excess high bit",
+    "C09": "digit iterators and inverses for 16 bases, six formatting traits x 18 flag combinations vs pad_integral/u128, from_str_radix for every radix 0..=65 with single-fault inputs, FromStr prefixes",
+    "C10": "reduce/add/mul/pow/inv_mod vs BigUint for every modulus class incl. 0 and 1; all triples at BITS<=3",
+    "C11": "Montgomery mul/square at slice level for N=1..16 and through Uint, with hook counters proving the carry-tracked, carry-set, carry_outer=2 and all three reduction arms ran",
+    "C12": "gcd/lcm/Bezout and the Lehmer matrix contracts (full and prefix, on extensions) vs Euclid in BigUint on quotient-sequence pairs; hook counters for all 12 from_u64_prefix outcomes",
+    "C13": "pow value+flag, log/log2/log10 (incl. widths 1..3), root for every degree, with termination restated as a per-call loop cap observed by hooks",
+    "C16": "17 integrations: round-trip, advertised length, bytes vs an independent reference encoder and vs the codec crate's own primitive encoding",
+    "C17": "57 decoder entry points on mutated / truncated / over-range / exhaustive-small inputs and with injected reader faults vs independent reference decoders",
+    "C18": "exact rational oracle on the IEEE-754 fields for both directions; all 2^32 f32 bit patterns at four widths in the thorough tier",
+    "C20": "346 facade entry points compared with the inherent method of the same meaning under catch_unwind",
+    "C04": "histories of ~60 operation groups with result feedback and cross-width migration, canonical-form invariant on every produced value, Eq/Hash/Ord vs BigUint on sampled pairs, plus compile probes for 9 ill-formed (BITS, LIMBS) pairs x up to 58 constants/constructors",
+    "C19": "generated uint! programs compiled against the working tree: literal values vs Python integers and run-time parsing, pass-through tokens, and per-line compile diagnostics for bad literals",
     "C01": "add/sub/neg/abs_diff/Sum in every variant and operator shape vs BigUint at 32 widths; all pairs enumerated at BITS<=4",
     "C02": "mul variants, widening grid, inv_ring, Product vs BigUint with the addmul coverage hooks showing every trimming / short-window / carry arm was executed through the Uint API",
     "C03": "div_rem and all derived forms vs BigUint on constructive recipes for the add-back, forced-digit and reciprocal-correction paths; hook counters in the evidence state how many cases reached each path",
@@ -173,6 +419,18 @@ LEVEL = {
     "C15": "every slice-level arithmetic kernel vs BigUint with conservation oracles for carry/borrow words, all length combinations 0..=10 for addmul",
 }
 SANI = {
+    "C08": "Miri shard in quick (raw pointer reads in the whole-limb fast path, byte views); Miri dev+release, AddressSanitizer and valgrind memcheck in thorough",
+    "C09": "Miri shard in quick (MaybeUninit format buffer); Miri dev+release and valgrind memcheck in thorough",
+    "C10": "Miri shard in quick (from_raw_parts_mut product buffer in mul_mod); Miri dev+release in thorough",
+    "C11": "Miri dev+release in thorough",
+    "C12": "Miri dev+release in thorough",
+    "C13": "none (float-dependent; Miri would perturb exp2/log2)",
+    "C16": "Miri shard in quick (as_le_slice_mut byte reversal in the RLP encoders, borsh, bytemuck); Miri dev+release and AddressSanitizer in thorough",
+    "C17": "Miri shard in quick; Miri dev+release and AddressSanitizer in thorough; aborts (allocation failure) are caught by running shards as supervised subprocesses with a per-case journal",
+    "C18": "none (float-dependent; Miri would perturb exp2/log2)",
+    "C20": "Miri dev+release in thorough",
+    "C04": "Miri shard in quick (byte views, rand fill through the limb array); Miri dev+release in thorough",
+    "C19": "none (the observable is the compiler's outcome)",
     "C01": "Miri (dev + release) in thorough",
     "C02": "Miri (dev + release) in thorough",
     "C03": "Miri shard in quick; Miri dev+release and AddressSanitizer in thorough",
@@ -182,6 +440,15 @@ SANI = {
     "C14": "Miri shard in quick (unchecked indexing in div_nx1/div_nx2 and the reciprocal table); Miri dev+release and AddressSanitizer in thorough",
     "C15": "Miri shard in quick; Miri dev+release in thorough (`assume!` = unreachable_unchecked in release)",
 }
+TECH = {
+    "C04": "runtime invariant monitor over operation histories with result feedback (canonical form, Eq/Hash/Ord vs BigUint) + compile-probe monitor over generated programs (compiler diagnostics and program output as the event log)",
+    "C16": "runtime reference-model monitor: independent reference encoders + differential check against the codec crates' own primitive encodings, round-trip oracle",
+    "C17": "runtime monitor of decoders under hostile inputs and injected reader faults: panic/abort observation (catch_unwind, supervised subprocess + journal), independent reference decoders, re-encode oracle",
+    "C18": "runtime reference-model monitor with an exact rational oracle on IEEE-754 fields; exhaustive f32 sweep in thorough",
+    "C19": "compile-probe monitor: generated programs compiled against the working tree; rustc JSON diagnostics and program output are the observed events, judged against Python integers",
+    "C20": "differential runtime monitor: facade vs inherent method, both under catch_unwind",
+}
+ENGINE = {"C19": "probes"}
 MANIFEST_TEXT = {
     pid: dict(
         level_text="Reference-model monitoring of the real code: " + LEVEL[pid] + ". Quick ~10^6, thorough ~10^7-10^8 monitored cases; "
@@ -190,8 +457,10 @@ MANIFEST_TEXT = {
                    "in the evidence).",
         design_ref=f"DESIGN.md section 4 ({pid})",
         level_note=TRUST,
-        technique="runtime reference-model monitor (independent BigUint oracle) over directed + hostile workloads, coverage hooks, "
-                  "debug-assert and release lanes; sanitizer lanes: " + SANI[pid],
+        technique=TECH.get(pid, "runtime reference-model monitor (independent BigUint oracle) over directed + hostile workloads, coverage hooks, "
+                  "debug-assert and release lanes") + "; sanitizer lanes: " + SANI[pid],
+        engine=ENGINE.get(pid, "vmon"),
+        also_probes=(pid == "C04"),
     )
     for pid in PROPS
 }
